@@ -108,3 +108,8 @@ Definition chk_ext (mask s : str) (sp_scheme sp_name sp_digest : str)
 Definition chk_clean (p out : str) : bool := eqb_str (fp_clean p) out.
 Definition chk_join (elems : list str) (out : str) : bool := eqb_str (fp_join elems) out.
 Definition chk_abs (cwd p out : str) : bool := eqb_str (fp_abs cwd p) out.
+
+(** getExistingName (repaired): [existing] = what Manifests() lists (any order), names as (host, namespace, model, tag) *)
+Definition mk4 (x : str * str * str * str) : mname := let '(h, n, m, t) := x in MkM h n m t.
+Definition chk_existing (existing : list (str * str * str * str)) (q r : str * str * str * str) : bool :=
+  m_eqb (get_existing_name (map mk4 existing) (mk4 q)) (mk4 r).
